@@ -8,7 +8,9 @@ measurements/resets/feedback/MPP on tens of qubits, GHZ-type components with up 
 with p in {0,1}) is replayed through stim.TableauSimulator: results that are deterministic given the earlier results must
 match, the others must be reachable, and the joint probability the real sampler assigned to the shot (product of the
 conditionals it used, read by forced sampling) must be exactly 2^-(number of free results).  For noisy QEC circuits each
-single error mechanism is inserted deterministically and the flipped detectors/observables are compared with Stim's.
+single error mechanism is inserted deterministically and the flipped detectors/observables are compared with Stim's, and for small
+noisy stabilizer circuits with probabilistic X/Y/Z_ERROR, DEPOLARIZE1/2 the exact distribution of all detector/observable events of the
+real sampler (real simplified channels) is compared with the XOR-convolution of Stim's detector error model.
 """
 from __future__ import annotations
 
@@ -364,6 +366,96 @@ def check_mechanisms(ctx, rng, nmax):
     return done
 
 
+def dem_distribution(text: str):
+    """exact joint distribution of (detectors, observables) implied by Stim's detector error model: XOR-convolution of its independent
+    mechanisms (exact for X/Y/Z_ERROR, DEPOLARIZE1/2)"""
+    import stim
+    circ = stim.Circuit(text)
+    nd, no = circ.num_detectors, circ.num_observables
+    dem = circ.detector_error_model(flatten_loops=True)
+    dist = np.zeros(2 ** (nd + no))
+    dist[0] = 1.0
+    idx = np.arange(len(dist))
+    for inst in dem:
+        if inst.type != "error":
+            continue
+        pr = inst.args_copy()[0]
+        m = 0
+        for t in inst.targets_copy():
+            if t.is_relative_detector_id():
+                m ^= 1 << t.val
+            elif t.is_logical_observable_id():
+                m ^= 1 << (nd + t.val)
+        dist = dist * (1 - pr) + dist[idx ^ m] * pr
+    return {tuple((k >> j) & 1 for j in range(nd + no)): float(v) for k, v in enumerate(dist) if v > 0}
+
+
+DEM_FIXED = [
+    # multi-bit channels whose bits collapse onto one signature (a Y eigenstate measured in Y; a Bell pair) next to a channel with a larger
+    # signature set, so that the simplification expands one into the other
+    "RY 0\nR 1\nDEPOLARIZE1(0.3) 0\nDEPOLARIZE2(0.15) 0 1\nMY 0\nM 1\nDETECTOR rec[-2]\nDETECTOR rec[-1]",
+    "R 0 1 2 3\nH 0 2\nCX 0 1 2 3\nDEPOLARIZE2(0.09) 1 2\nDEPOLARIZE2(0.12) 0 1 2 3\nCX 0 1 2 3\nH 0 2\nM 0 1 2 3\nDETECTOR rec[-4]\nDETECTOR rec[-3]\nDETECTOR rec[-2]\nDETECTOR rec[-1]",
+    "R 0 1\nX_ERROR(0.1) 0\nDEPOLARIZE2(0.2) 0 1\nM 0 1\nDETECTOR rec[-2]\nDETECTOR rec[-1]",
+    "RX 0\nR 1\nCX 0 1\nDEPOLARIZE1(0.2) 0 1\nY_ERROR(0.125) 1\nDEPOLARIZE2(0.3) 1 0\nCX 0 1\nMX 0\nM 1\nDETECTOR rec[-2]\nOBSERVABLE_INCLUDE(0) rec[-1]",
+]
+
+
+def check_dem_probabilities(ctx, rng, n_random):
+    """noisy stabilizer circuits with PROBABILISTIC Pauli channels: the exact distribution of all detector / observable parities the real
+    sampler uses (real simplified channels, conditionals read by forced sampling) equals the one implied by Stim's detector error model"""
+    import tsim
+    from harness.exactdist import dist_diff, tsim_dist
+    texts = list(DEM_FIXED)
+    for _ in range(n_random):
+        nq = int(rng.integers(2, 5))
+        L = [f"{['R', 'RX', 'RY'][int(rng.integers(0, 3))]} {q}" for q in range(nq)]
+        bases = [l.split()[0][1:] or "Z" for l in L]
+        fwd = []
+        for _g in range(int(rng.integers(1, 4))):
+            if nq >= 2 and rng.random() < 0.6:
+                a, b = rng.choice(nq, size=2, replace=False)
+                fwd.append(f"{['CX', 'CZ', 'CY'][int(rng.integers(0, 3))]} {int(a)} {int(b)}")
+            else:
+                fwd.append(f"{['H', 'S', 'SQRT_X', 'H_YZ'][int(rng.integers(0, 4))]} {int(rng.integers(0, nq))}")
+        noise = []
+        for _k in range(int(rng.integers(2, 4))):
+            pr = [0.0625, 0.125, 0.1875, 0.25, 0.375][int(rng.integers(0, 5))]
+            r = rng.random()
+            if r < 0.4 and nq >= 2:
+                a, b = rng.choice(nq, size=2, replace=False)
+                noise.append(f"DEPOLARIZE2({pr}) {int(a)} {int(b)}")
+            elif r < 0.8:
+                noise.append(f"DEPOLARIZE1({pr}) {int(rng.integers(0, nq))}")
+            else:
+                noise.append(f"{['X_ERROR', 'Y_ERROR', 'Z_ERROR'][int(rng.integers(0, 3))]}({pr}) {int(rng.integers(0, nq))}")
+        import stim
+        inv = [str(i) for i in stim.Circuit("\n".join(fwd)).inverse()]
+        meas = [f"M{'' if b == 'Z' else b} {q}" for q, b in enumerate(bases)]
+        ann = [f"DETECTOR rec[-{nq - q}]" for q in range(nq)]
+        if rng.random() < 0.5:
+            ann[-1] = f"OBSERVABLE_INCLUDE(0) rec[-1] rec[-{nq}]"
+        texts.append("\n".join(L + fwd + noise + inv + meas + ann))
+    for text in texts:
+        try:
+            want = dem_distribution(text)
+        except Exception:
+            continue                   # Stim cannot build a model (non-deterministic detector): not a case
+        try:
+            got, info = tsim_dist(tsim.Circuit(text), det=True, max_f=12)
+        except ValueError:
+            continue
+        except Exception as e:
+            ctx.violation("dem-probabilities-raises:" + text.replace("\n", ";")[:50], f"tsim raised {e!r} on a noisy stabilizer circuit", {"text": text, "kind": "dem"})
+            continue
+        dd = dist_diff(got, want)
+        ctx.count(("dem-prob", text), nontrivial=len(want) > 1, bucket="dem-event-probabilities")
+        if dd > 1e-6:
+            worst = max(set(got) | set(want), key=lambda k: abs(got.get(k, 0.0) - want.get(k, 0.0)))
+            ctx.violation("dem-probabilities:" + text.replace("\n", ";")[:70],
+                          f"the probability of the detector/observable event {worst} is {got.get(worst, 0.0):.6g}, Stim's detector error model implies {want.get(worst, 0.0):.6g}",
+                          {"text": text, "kind": "dem", "tsim": {str(k): v for k, v in got.items() if v > 1e-12}, "stim_dem": {str(k): v for k, v in want.items() if v > 1e-12}})
+
+
 def run(ctx: Ctx) -> int:
     standard_model_phase(ctx, TRANSLATORS, COQ_FILES, "Props.C04", "Props/C04.v")
     ctx.trusted += ["stim.TableauSimulator (peek_observable_expectation / postselect_observable) as reference semantics",
@@ -381,6 +473,8 @@ def run(ctx: Ctx) -> int:
             # a component with 128 or more fair random outputs underflows float32 (recorded finding, identified per circuit)
             fk = f"float32-underflow:ghz-xx-{n}" if (kind == "xx" and n >= 128) else None
             check_shots(ctx, ghz(n, kind, rng), f"ghz-{kind}", 6 if quick else 20, finding_key=fk)
+    # probabilistic Pauli channels: exact detector-event probabilities vs Stim's detector error model
+    check_dem_probabilities(ctx, rng, 10 if quick else 200)
     # deterministic correlated-error chains (3..6 links, random Pauli products, probabilities 0/1) inside Clifford circuits
     for rep in range(10 if quick else 120):
         if time.time() > t_end:
@@ -462,6 +556,12 @@ def run(ctx: Ctx) -> int:
 def replay(ctx: Ctx, obj) -> int:
     import tsim
     r = obj.get("replay") or {}
+    if r.get("kind") == "dem":
+        from harness.exactdist import dist_diff, tsim_dist
+        got, _ = tsim_dist(tsim.Circuit(r["text"]), det=True)
+        dd = dist_diff(got, dem_distribution(r["text"]))
+        print("max |tsim - Stim DEM| =", dd)
+        return 0 if dd <= 1e-6 else 1
     if "shot" in r:
         ok, free, msg = tableau_replay(tsim.Circuit(r["text"])._stim_circ, np.array(r["shot"], dtype=bool))
         print(ok, free, msg)
